@@ -111,6 +111,7 @@ def ersFinish (rs : ERS) (role : String) (freq : Dur) (sp : StratParams) (r : St
       else r.deleteE.map (·.2.name),
     createCands :=
       if role == "active" then (countAll rs.templateGeneration now (targeted sp)).toCreate else r.createE,
+    entries := if role == "active" then targeted sp else [],
     statusUpdate := if stF != rs.status then some stF else none,
     requeue := r.requeue, requeueAfter := rqAfter }
 
